@@ -38,6 +38,12 @@ func TestVerifC02Rotate(t *testing.T) {
 	const check = "C02.rotate"
 	res := verifrt.NewResult(check)
 	res.Rule = "a file value opens its counter file with the mode file reading on/local/absent/garbage, increments, then the mode file is rewritten (off with and without date and blanks; or stays) and the clock moves over 1-4 week ends with a rotate1 call (what the rotation timer does) and increments after each. Oracle: once the mode file reads off, no rotation creates a counter file (the set of *.count names is frozen from the switch on); while it does not read off every rotation past the end creates exactly the next file. distinct = (initial mode, switch point, weeks)"
+	// C09 on the same runs: once the recorded end of a file has passed and the
+	// rotation has run (whether or not it could open the next file), the
+	// process's increments no longer land in that file.
+	res9 := verifrt.NewResult("C09.rotate")
+	res9.Rule = "the runs of C02.rotate (a running process whose clock moves over 1-4 week ends, the mode file possibly switched to off in between, so that the rotation cannot open the next file): after every rotation call past the recorded end, increments of existing and of new counters leave every earlier counter file byte-identical. distinct = (initial mode, switch point, weeks)"
+	defer res9.Write()
 	n := verifrt.Scale(400, 20000)
 	for i := 0; i < n; i++ {
 		if !verifrt.WantCase(check, i) {
@@ -91,8 +97,27 @@ func TestVerifC02Rotate(t *testing.T) {
 					now = expiry.Add(time.Duration(rnd.Intn(3)) * time.Hour)
 				}
 				expiry = f.rotate1()
+				old := map[string]string{}
+				for _, nm := range before {
+					b, _ := os.ReadFile(filepath.Join(telemetry.Default.LocalDir(), nm))
+					old[nm] = string(b)
+				}
 				c.Add(2)
 				(&Counter{name: fmt.Sprintf("verif/new%d", w), file: f}).Add(1)
+				res9.Eval()
+				res9.Distinct(fmt.Sprintf("%q/%d/%d/%d", initial, switchAt, weeks, w))
+				for _, nm := range before {
+					b, _ := os.ReadFile(filepath.Join(telemetry.Default.LocalDir(), nm))
+					if string(b) != old[nm] {
+						res9.Violate("increment-landed-in-expired-file", fmt.Sprintf("the recorded end of %s had passed and the rotation had run (mode file %q, rotation %d, error %v), yet the increments made afterwards changed that file", nm, map[bool]string{true: offText, false: initial}[off], w, f.err), rp)
+						return
+					}
+				}
+				if off {
+					res9.Hit("rotation-could-not-open-next-file")
+				} else {
+					res9.Hit("rotation-opened-next-file")
+				}
 				after := c02CountFiles()
 				if off {
 					if strings.Join(after, "|") != strings.Join(frozen, "|") {
@@ -114,6 +139,7 @@ func TestVerifC02Rotate(t *testing.T) {
 		}
 	}
 	res.Require("switched-to-off-while-running", "rotation-with-mode-off", "rotation-with-mode-not-off")
+	res9.Require("rotation-could-not-open-next-file", "rotation-opened-next-file")
 	if err := res.Write(); err != nil {
 		t.Fatal(err)
 	}
